@@ -16,6 +16,7 @@ of that class is still a violation.
 """
 import itertools
 import os
+import re
 
 import numpy as np
 
@@ -484,6 +485,13 @@ def _mask_checks(ctx, E, validated):
                    f'unmasked input violates roundtrip (smallest defect {neg_least:.2e}); the theorems are applied with the '
                    'carrier M := the masked arrays (Lean: total_tendency_indep_of_reference_masked, laws_restrict); states of '
                    'the search have masked leaves (standard_normal * mask)')
+  ctx.notes.append('NOT validated here (model-only devices of the masked reading): MaskClosed.lproj_mem - `HOps.lproj l` (projection on '
+                   'one total wavenumber, the axis _vertical_matvec_per_wavenumber maps over) has no counterpart function on the real '
+                   'Grid; it is used by the model of implicit_inverse only, which no C04 theorem mentions, and its closure is needed '
+                   'solely to form the record HOps.restrict; closure is validated for ' + ', '.join(('to_modal', 'oneModal') + ops) +
+                   ' (+ curl_cos_lat, div_cos_lat). The unrestricted-operations corollaries (total_tendency_indep_of_reference_on_mask, '
+                   '..._moist_..._on_mask) follow from the masked theorems by the proved naturality of Subtype.val (restrict_hom, '
+                   'total_restrict, totalMoist_restrict: every field by rfl, no law used), so they need no further validation')
 
 
 # --------------------------------------------------------------------------
@@ -658,15 +666,20 @@ def _sentinel(ctx, E, shared, validated):
       cGS = (grid.to_modal(c * gu * sec2), grid.to_modal(c * gv * sec2))
       ops = dict(vorticity=np.asarray(grid.curl_cos_lat(cGS, clip=False)),
                  divergence=np.asarray(grid.div_cos_lat(cGS, clip=False)))
-      mism = 0.0
+      lin_mism = 0.0   # own variable: loop (iv) below has its own `mism` (review2 F, C04 N1)
       for (ia, ib) in itertools.combinations(range(len(trefs)), 2):
         dt = (trefs[ia] - trefs[ib])[:, None, None]
         for f, o in ops.items():
           pred = np.asarray(clip(jnp.asarray(R * dt * o)))
           meas = (tc[ib][f] - tc[ia][f]) - (tn_[ib][f] - tn_[ia][f])
           scale = max(np.abs(t[f]).max() for t in tc)
-          mism = max(mism, float(np.abs(meas - pred).max() / scale))
-      lin_res_seen.append((kind, amp, mism))
+          lin_mism = max(lin_mism, float(np.abs(meas - pred).max() / scale))
+      lin_res_seen.append((kind, amp, lin_mism))
+      ctx.expect(np.isfinite(lin_mism) and lin_mism <= RES_TOL, f'cloud-residual-mismatch:{kind}',
+                 'on a grid that does not resolve the product rule, the T_ref dependence of the cloud class minus that of '
+                 'the same state without condensate is not the closed form clip(R·(T1-T2)·(curl|div)_cos_lat((q_l+q_i)·sec2·'
+                 f'cos_lat_grad(ln ps))): mismatch {lin_mism:.3e} of the total tendency',
+                 dict(inp, cls='cloud - cloud-no-condensate', tracers=sorted(cloud_tr)))
     # (iv) ... and the aliasing-level dependence of the moist class itself (the other known finding on such grids) is not
     # free either: every other term being linear in T_ref and cancelling by the validated laws, what remains is exactly the
     # DEFECT of the product-rule laws, total(T_b) - total(T_a) = clip((R_v - R)·(T_b - T_a)·[(curl|div)_cos_lat(q·GS) -
@@ -700,14 +713,10 @@ def _sentinel(ctx, E, shared, validated):
             mism = max(mism, float(np.abs(meas - pred).max() / scale))
             size = max(size, float(np.abs(pred).max() / scale))
         alias_seen.append((nm, kind, amp, size, mism))
-        ctx.expect(mism <= RES_TOL, f'moist-aliasing-mismatch:{kind}',
+        ctx.expect(np.isfinite(mism) and mism <= RES_TOL, f'moist-aliasing-mismatch:{kind}',
                    f'T_ref dependence of the {nm} class on a grid that does not resolve the product rule is not the closed '
                    'form clip((R_v-R)·(T_b-T_a)·[(curl|div)_cos_lat(q·sec2·grad ln ps) - to_modal(product-rule form)]): '
                    f'mismatch {mism:.3e} of the total tendency (size of the closed form {size:.3e})', dict(inp, cls=nm))
-      ctx.expect(mism <= RES_TOL, f'cloud-residual-mismatch:{kind}',
-                 'on a grid that does not resolve the product rule, the T_ref dependence of the cloud class minus that of '
-                 'the same state without condensate is not the closed form clip(R·(T1-T2)·(curl|div)_cos_lat((q_l+q_i)·sec2·'
-                 f'cos_lat_grad(ln ps))): mismatch {mism:.3e} of the total tendency', dict(inp, cls='cloud - cloud-no-condensate'))
 
   # include_vertical_advection=False: not claimed; measured once for the record
   if not ctx.quick:
@@ -761,12 +770,19 @@ def _sentinel(ctx, E, shared, validated):
 
 def run(ctx: common.Ctx):
   E = _Env()
-  # DynamicsMoist (T4.3/T4.4) and DynamicsToy (non-vacuity instance, cloud witness) are imported by the property
-  # module; they are source-audited when present (a missing one breaks the build of the property module)
+  # Source audit: the model, and every lemma file of the Dynamics family.  The five files below are merged and REQUIRED
+  # (no existence guard: a missing one is an error).  Further `DinoProofs.Lemmas.Dynamics*` modules are audited exactly
+  # when the property module imports them (e.g. DynamicsMaskedNat, naturality of the restriction): the audited set is
+  # derived from the imports, so a file that the proofs use can never be skipped, and a file that is imported but
+  # missing breaks the build of the property module.
   lemma_files = ['DinoProofs/Lemmas/Dynamics.lean', 'DinoProofs/Lemmas/DynamicsMoist.lean',
                  'DinoProofs/Lemmas/DynamicsToy.lean', 'DinoProofs/Lemmas/DynamicsMasked.lean', 'Dino/Dynamics.lean']
-  ctx.lean('DinoProofs.Properties.C04', 'C04.txt',
-           extra_files=[f for f in lemma_files if os.path.exists(os.path.join(common.LEAN, f))])
+  prop_src = open(os.path.join(common.LEAN, 'DinoProofs/Properties/C04.lean')).read()
+  for mod in re.findall(r'^import (DinoProofs\.Lemmas\.Dynamics\w*)\s*$', prop_src, re.M):
+    f = mod.replace('.', '/') + '.lean'
+    if f not in lemma_files:
+      lemma_files.append(f)
+  ctx.lean('DinoProofs.Properties.C04', 'C04.txt', extra_files=lemma_files)
 
   rng = ctx.rng
   # (grid, layers) pairs shared by the correspondence and the search (JAX compiles per shape)
